@@ -593,6 +593,9 @@ def fifths_mode_to_key_name(fifths, mode=None):
     else:
         raise Exception("Unknown mode {}".format(mode))
 
+    if fifths < -7:
+        raise Exception("Unknown number of fifths {}".format(fifths))
+
     try:
         name = keylist[fifths + 7]
     except IndexError:
